@@ -138,13 +138,14 @@ Arguments final {A Tbl} s.
 Arguments temps {A Tbl} s.
 Arguments procs {A Tbl} s.
 
-(** ** the instance evaluated against the implementation: bytes are their own offsets
-    ([ser = 0 .. len-1]); a content is valid iff it is exactly [ser]; tables are [nat]s
-    ([fresh = 0]).  Observation of a state: size of the final file (if any) and whether it
-    is complete, sizes of the temp files, and the program counters. *)
-Definition cser (len : nat) : list nat := seq 0 len.
-Definition cvalidate (len : nat) (c : list nat) : option nat :=
-  if list_eq_dec Nat.eq_dec c (cser len) then Some 0 else None.
+(** ** the instance evaluated against the implementation: bytes are anonymous ([unit]), so a
+    content is identified by its length (every content that occurs is a prefix of [ser]);
+    a content is valid iff it has the full length; tables are [nat]s ([fresh = 0]).
+    Observation of a state: size of the final file (if any) and whether it is complete, sizes
+    of the temp files, and the program counters. *)
+Definition cser (len : nat) : list unit := repeat tt len.
+Definition cvalidate (len : nat) (c : list unit) : option nat :=
+  if Nat.eqb (length c) len then Some 0 else None.
 
 Definition pc_code (c : pc nat) : nat :=
   match c with
@@ -152,11 +153,11 @@ Definition pc_code (c : pc nat) : nat :=
   | Done r => 5 + r | Dead => 99
   end.
 
-Definition observe (len : nat) (s : state nat nat)
+Definition observe (len : nat) (s : state unit nat)
   : option (nat * bool) * list (option nat) * list nat :=
   (match final s with
    | None => None
-   | Some c => Some (length c, if list_eq_dec Nat.eq_dec c (cser len) then true else false)
+   | Some c => Some (length c, Nat.eqb (length c) len)
    end,
    map (fun t => match t with None => None | Some c => Some (length c) end) (temps s),
    map pc_code (procs s)).
@@ -164,8 +165,8 @@ Definition observe (len : nat) (s : state nat nat)
 (** initial content: [None] = no file, [Some k] = the first [k] bytes of the serialisation *)
 Definition crun (len : nat) (g0 : option nat) (tr : list (action))
   : option (option (nat * bool) * list (option nat) * list nat) :=
-  match run nat nat 0 (cser len) (cvalidate len) true
-            (init nat nat (match g0 with None => None | Some k => Some (firstn k (cser len)) end)) tr with
+  match run unit nat 0 (cser len) (cvalidate len) true
+            (init unit nat (match g0 with None => None | Some k => Some (firstn k (cser len)) end)) tr with
   | None => None
   | Some s => Some (observe len s)
   end.
